@@ -1,27 +1,26 @@
 import Proofs.CommReady
+import Proofs.CommMeasure
 import Props.C03
 /-!
 # C01  Communicate always terminates: parent and child never deadlock
 
-**Full statement** (kept visible): for every finite child script, every input, every subset of piped
-streams, every pipe capacity `≥ 4096` (stdin) / `≥ 1` (outputs) and every interleaving, with no
-time limit, (a) in every reachable state in which the call has not returned some party can move
-(`c01_progress`), (b) there is a measure on states that strictly decreases with every step, so every
-execution is finite and ends with the call returned (`c01_terminates`), (c) a stream that reached
-end-of-file is neither polled nor read again in the same call.
+**Statement**: for every finite child script, every input, every subset of piped streams, every
+pipe capacity `≥ 4096` (stdin) / `≥ 1` (outputs) and every interleaving, with no time limit,
+(a) in every reachable state in which the call has not returned some party can move (`c01_progress`),
+(b) there is a measure on states that strictly decreases with every step of either party, so every
+execution is finite (`c01_measure_decreases`, `c01_terminates`) and, with (a), ends with the call
+returned (`c01_maximal_run_has_returned`), (c) a stream that reached end-of-file is neither polled
+nor read again in the same call (`c01_no_eof_spin`).
 
-**Proved here** (`…_partial` where weaker than the full statement):
-* `c01_never_blocks_in_io` — the safety half of (a): whenever the library, after a `poll`, is about
-  to `write`, the chunk is at most 4096 bytes and at least 4096 bytes are free in the pipe (or the
-  reader is gone); whenever it is about to `read`, data is available or no writer is left.  By
-  A1/A2 none of these calls blocks: with more than one stream open the library blocks **only**
-  inside `poll`, and that `poll` covers every stream it still owns (`c01_polls_all_streams`).
-* `c01_no_deadlock_in_poll_partial` — the liveness core of (a) at the only blocking point of the
-  multi-stream case: if that `poll(-1)` finds nothing ready, the child is not blocked (it can make
-  a step) — "parent blocked on one pipe while the child is blocked on another" is unreachable.
-* `c01_no_eof_spin` — (c).
-Not yet proved in Lean: the decreasing measure (b) and progress for the single-stream shortcut
-path; both are exercised by the correspondence harness's deadlock/spin oracle on every run.
+Building blocks kept as theorems of their own:
+* `c01_never_blocks_in_io` — after a `poll`, a pending `write` offers at most 4096 bytes and at
+  least 4096 are free (or the reader is gone), a pending `read` has data or no writer: by A1/A2 none
+  of these calls blocks, so with more than one stream open the library blocks **only** inside `poll`,
+  and that `poll` covers every stream it still owns (`c01_polls_all_streams`).
+* `c01_no_deadlock_in_poll_partial` — at that `poll(-1)`: if nothing is ready the child is not
+  blocked.  (Subsumed by `c01_progress`, which also covers the single-stream shortcut, where the
+  library blocks in `read`/`write` on the only stream left: `Short` in Proofs/CommMeasure.lean.)
+With a time limit in force termination is C04's subject (`c04_bounded_overrun`).
 -/
 namespace Comm
 
@@ -247,6 +246,114 @@ theorem c01_no_eof_spin (p : Par) (w : World) (data : List UInt8) (hr : Ready p 
   · intro hpc; simp [feed, hpc]
   · intro e hpc; simp only [Ready, hpc] at hr; exact hr.1
   · intro hpc; simp only [Ready, hpc] at hr; exact hr.1
+
+
+/-! ### Termination -/
+
+theorem run_bounded (ss ss' : Sess) (evs : List Ev) (hi : Inv1 ss) (hn : NoTime ss.sys.par)
+    (hev : ∀ e ∈ evs, noStart e = true) (h : runSess ss evs = some ss') :
+    evs.length + mu ss'.sys ≤ mu ss.sys ∧ NoTime ss'.sys.par := by
+  induction evs generalizing ss with
+  | nil => simp only [runSess, Option.some.injEq] at h; subst h; exact ⟨by simp, hn⟩
+  | cons e es ih =>
+    simp only [runSess] at h
+    split at h
+    · rename_i s2 hs2
+      have hi2 := sessStep_inv1 ss s2 e hi hs2
+      have hne := hev e (by simp)
+      have hdec : mu s2.sys < mu ss.sys ∧ NoTime s2.sys.par := by
+        cases e with
+        | child c =>
+          simp only [sessStep, Option.map_eq_some_iff] at hs2
+          obtain ⟨w', hw, rfl⟩ := hs2
+          exact step_dec ss.sys ⟨ss.sys.par, w'⟩ .child c hi.ready hn (by simp [step, hw])
+        | parent c =>
+          simp only [sessStep, Option.map_eq_some_iff] at hs2
+          obtain ⟨⟨p', w'⟩, hw, rfl⟩ := hs2
+          exact step_dec ss.sys ⟨p', w'⟩ .parent c hi.ready hn (by simp [step, hw])
+        | start l t => simp [noStart] at hne
+      have := ih s2 hi2 hdec.2 (fun e he => hev e (by simp [he])) h
+      exact ⟨by simp only [List.length_cons]; omega, this.2⟩
+    · simp at h
+
+
+
+
+/-- **C01 (the measure).**  In every reachable state of a call made without a time limit, every step
+    of the library or of the child strictly decreases `mu` (6 × the work still to do -- bytes to move,
+    streams to retire, script actions to run -- plus the rank of the program counter in the round). -/
+theorem c01_measure_decreases (stdin : Bool) (input : List UInt8) (hasOut hasErr : Bool) (w0 : World)
+    (l : Option Nat) (evs : List Ev) (ss : Sess) (hev : ∀ e ∈ evs, noStart e = true)
+    (h : runSess (initSess stdin input hasOut hasErr w0) (.start l none :: evs) = some ss)
+    (who : Who) (c : Choice) (s' : Sys) (hs : step ss.sys who c = some s') : mu s' < mu ss.sys := by
+  have hi := reach_inv1 stdin input hasOut hasErr w0 l none evs ss h
+  simp only [runSess] at h
+  split at h
+  · rename_i s1 hs1
+    have hi1 : Inv1 s1 := reach_inv1 stdin input hasOut hasErr w0 l none [] s1 (by simp [runSess, hs1])
+    have hn1 : NoTime s1.sys.par := by
+      simp only [sessStep] at hs1
+      split at hs1
+      · simp only [Option.some.injEq] at hs1; subst hs1; exact startRead_noTime _ l
+      · simp at hs1
+    have := run_bounded s1 ss evs hi1 hn1 hev h
+    exact (step_dec ss.sys s' who c hi.ready this.2 hs).1
+  · simp at h
+
+/-- **C01 (always finishes).**  A call made without a time limit cannot go on forever: however the
+    steps of the library and of the child interleave and whatever sizes the kernel transfers, the
+    number of steps after the call was made is bounded by the measure of the state it started in. -/
+theorem c01_terminates (stdin : Bool) (input : List UInt8) (hasOut hasErr : Bool) (w0 : World)
+    (l : Option Nat) (evs : List Ev) (ss s1 : Sess) (hev : ∀ e ∈ evs, noStart e = true)
+    (h1 : sessStep (initSess stdin input hasOut hasErr w0) (.start l none) = some s1)
+    (h : runSess s1 evs = some ss) : evs.length + mu ss.sys ≤ mu s1.sys := by
+  have hi1 : Inv1 s1 := reach_inv1 stdin input hasOut hasErr w0 l none [] s1 (by simp [runSess, h1])
+  have hn1 : NoTime s1.sys.par := by
+    simp only [sessStep] at h1
+    split at h1
+    · simp only [Option.some.injEq] at h1; subst h1; exact startRead_noTime _ l
+    · simp at h1
+  exact (run_bounded s1 ss evs hi1 hn1 hev h).1
+
+/-- **C01 (no deadlock, anywhere).**  In every reachable state of a call made without a time limit
+    in which the call has not returned, the library's pending system call is answered or the child
+    can make a step -- in `poll`, and in the blocking `read`/`write` of the single-stream shortcut. -/
+theorem c01_progress (stdin : Bool) (input : List UInt8) (hasOut hasErr : Bool) (w0 : World)
+    (l : Option Nat) (evs : List Ev) (ss : Sess) (hev : ∀ e ∈ evs, noStart e = true)
+    (h : runSess (initSess stdin input hasOut hasErr w0) (.start l none :: evs) = some ss)
+    (hcap : 4096 ≤ ss.sys.w.capIn ∧ 1 ≤ ss.sys.w.capOut ∧ 1 ≤ ss.sys.w.capErr)
+    (hnd : isDone ss.sys.par = false) :
+    (∃ p' w', parStep ss.sys.par ss.sys.w {} = some (p', w')) ∨ (∃ w', childStep ss.sys.par ss.sys.w {} = some w') := by
+  have hi := reach_inv1 stdin input hasOut hasErr w0 l none evs ss h
+  have hsh := reach_short stdin input hasOut hasErr w0 _ ss h
+  have hnt : NoTime ss.sys.par := by
+    simp only [runSess] at h
+    split at h
+    · rename_i s1 hs1
+      have hi1 : Inv1 s1 := reach_inv1 stdin input hasOut hasErr w0 l none [] s1 (by simp [runSess, hs1])
+      have hn1 : NoTime s1.sys.par := by
+        simp only [sessStep] at hs1
+        split at hs1
+        · simp only [Option.some.injEq] at hs1; subst hs1; exact startRead_noTime _ l
+        · simp at hs1
+      exact (run_bounded s1 ss evs hi1 hn1 hev h).2
+    · simp at h
+  exact progress_core ss.sys.par ss.sys.w hi.ready hsh hi.i3.eof hnt hcap hnd
+
+/-- **C01 (every maximal execution ends with the call returned).**  If neither party can move any
+    more, the call has returned. -/
+theorem c01_maximal_run_has_returned (stdin : Bool) (input : List UInt8) (hasOut hasErr : Bool) (w0 : World)
+    (l : Option Nat) (evs : List Ev) (ss : Sess) (hev : ∀ e ∈ evs, noStart e = true)
+    (h : runSess (initSess stdin input hasOut hasErr w0) (.start l none :: evs) = some ss)
+    (hcap : 4096 ≤ ss.sys.w.capIn ∧ 1 ≤ ss.sys.w.capOut ∧ 1 ≤ ss.sys.w.capErr)
+    (hstuckP : parStep ss.sys.par ss.sys.w {} = none) (hstuckC : childStep ss.sys.par ss.sys.w {} = none) :
+    isDone ss.sys.par = true := by
+  cases hd : isDone ss.sys.par with
+  | true => rfl
+  | false =>
+    rcases c01_progress stdin input hasOut hasErr w0 l evs ss hev h hcap hd with ⟨p', w', hp⟩ | ⟨w', hc⟩
+    · rw [hstuckP] at hp; cases hp
+    · rw [hstuckC] at hc; cases hc
 
 /-! ### Non-vacuity (tests, labelled as tests) -/
 -- the classic deadlock shape in miniature (the child fills its stdout pipe before reading its input):
